@@ -139,6 +139,10 @@ class TracedSolver(hsolver.Solver):
         return out
 
 
+class LoopBudgetExceeded(BaseException):
+    """the solve loop polled its bookkeeping more often than any terminating solve can"""
+
+
 class Schedule(object):
     """replaces the ordering points of habutax.solver for one solve. Ranks come
     from a PRNG seeded with a Hypothesis-drawn integer (one draw per case, so
@@ -150,6 +154,8 @@ class Schedule(object):
         self.mode = mode
         self.rng = random.Random(seed)
         self.calls = 0
+        self.polls = 0
+        self.poll_limit = 200000
 
     def rank(self):
         self.calls += 1
@@ -172,6 +178,14 @@ class Schedule(object):
             return sched.rank()
 
         class PermTracker(orig_tracker):
+            def has_met(self):
+                # deterministic guard against a solve loop that spins without
+                # evaluating anything (step bound, never wall clock)
+                sched.polls += 1
+                if sched.polls > sched.poll_limit:
+                    raise LoopBudgetExceeded(f'more than {sched.poll_limit} polls of the dependency bookkeeping')
+                return super().has_met()
+
             def met_dependents(self):
                 items = list(super().met_dependents())
                 if sched.mode == 'reverse':
@@ -229,7 +243,9 @@ def run(form_classes, requested, cp, answer_fn=None, schedule=None, want_solutio
     r.verdict = None
     r.solution = None
     r.solution_exc = None
-    cm = schedule.installed() if schedule is not None else contextlib.nullcontext()
+    if schedule is None:
+        schedule = Schedule(mode='identity')
+    cm = schedule.installed()
     with cm:
         r.solver = TracedSolver(r.store, form_classes, prompt=prompt, trace=r.trace)
         try:
